@@ -10,6 +10,7 @@ satisfiable by an `example` and necessary by a `_needed` witness.
 import WzVerif.Lemmas.Http
 import WzVerif.Lemmas.HttpOpt3
 import WzVerif.Lemmas.HttpEtag
+import WzVerif.Lemmas.HttpEtagNF
 import WzVerif.Lemmas.HttpAuth
 import WzVerif.Lemmas.HttpDigest
 import WzVerif.Lemmas.HttpCsp
@@ -635,6 +636,18 @@ theorem etags_normal_form (strong weak : List Str)
       = parseEtags (etagsToHeader ⟨strong.map some, weak.map some, false⟩) := by
   rw [etags_roundtrip_any strong weak hs hw]
   exact etags_roundtrip_any strong weak hs hw
+
+/-- **normal form on arbitrary text**: for *every* header text `h` (not only the dumper's image),
+`parse_etags(parse_etags(h).to_header()) == parse_etags(h)`. Content: whatever the regex captures
+as one tag — a quoted tag may contain `"`, a raw tag may contain anything but a comma after white
+space — is *closed*: inside `"tag"` no inner quote is followed by (white space and) a comma, so the
+lazy `"(.*?)"` stops at the final quote again. -/
+theorem etags_normal_form_arbitrary (h : Str) :
+    parseEtags (etagsToHeader (parseEtags h)) = parseEtags h :=
+  etags_normal_form_any h
+
+example : parseEtags "a\"b , W/\"x\" y\", \"q\" ,, *x".toList
+    = ⟨[some "a\"b".toList, some "q".toList, some [], some "*x".toList], [some "x\" y".toList], false⟩ := by decide
 
 /-- the former `None` quirk is gone: the empty quoted tag is a fixed point of parse ∘ dump -/
 theorem etags_normal_form_empty_tag :
